@@ -10,7 +10,7 @@
 //   args  :=  h<id> for objects, n<index> for numeric parameters (index into the boundary table of the class)
 // Checks per call: error value <=> error handler called; WKB image of every live geometry the call does not own / mutate is
 // unchanged; a fresh result is distinct from every live pointer; SRID of constructive results = SRID of the first argument;
-// wall time. At the end everything the model says is still owned is destroyed and GEOS_finish_r runs (LeakSanitizer at exit).
+// time (10 s of CPU per call, 60 s wall-clock backstop). At the end everything the model says is still owned is destroyed and GEOS_finish_r runs (LeakSanitizer at exit).
 #include <geos_c.h>
 #include <geos/geom/Geometry.h>
 #include <geos/geom/CoordinateFilter.h>
@@ -87,6 +87,10 @@ static void on_alarm(int) {
     _exit(42);
 }
 
+static void arm(int cpu_s) {
+    struct itimerval it; memset(&it, 0, sizeof it); it.it_value.tv_sec = cpu_s; setitimer(ITIMER_PROF, &it, nullptr);
+    alarm(cpu_s > 0 ? 6 * cpu_s : 0);
+}
 static int query_hits = 0;
 static void query_cb(void* item, void*) { query_hits++; if (item) { volatile int t = GEOSGeomTypeId_r(H, (const GEOSGeometry*)item); (void)t; } }
 
@@ -212,7 +216,7 @@ static int run_program(const std::string& line, int fd) {
     GEOSContext_setErrorMessageHandler_r(H, on_error, nullptr);
     GEOSContext_setNoticeMessageHandler_r(H, on_notice, nullptr);
     WW = GEOSWKBWriter_create_r(H); GEOSWKBWriter_setOutputDimension_r(H, WW, 4); GEOSWKBWriter_setIncludeSRID_r(H, WW, 1);
-    signal(SIGALRM, on_alarm);
+    signal(SIGALRM, on_alarm); signal(SIGPROF, on_alarm);
     std::string prog = line, poolspec;
     size_t hash = line.find('#');
     if (hash != std::string::npos) { prog = line.substr(0, hash); poolspec = line.substr(hash + 1); }
@@ -291,7 +295,7 @@ static int run_program(const std::string& line, int fd) {
         if (!fn) { say(fd, "H no such entry point %s\n", name.c_str()); return 3; }
         std::string sig = csig(name, shape, res, cls);
         Ret r; r.p = nullptr; r.i = 0; r.d = 0; r.out = 0;
-        double t0 = now_ms(); alarm(per_call_s);
+        double t0 = now_ms(); arm(per_call_s);
         if (sig == "wkt") {
             r.p = GEOSGeomFromWKT_r(H, WKT[a[0].u]);
             if (r.p && (a[0].u % 3) == 1) GEOSSetSRID_r(H, (GEOSGeometry*)r.p, PICK(SRID, a[0].u));
@@ -318,7 +322,7 @@ static int run_program(const std::string& line, int fd) {
         } else {
             r = invoke(fn, sig, a);
         }
-        alarm(0); double ms = now_ms() - t0;
+        arm(0); double ms = now_ms() - t0;
         // a result that is out of range by the harness's own count is not used further (the entry point accepted a bad index)
         if (r.p && (name == "GEOSGetGeometryN_r" || name == "GEOSGetInteriorRingN_r") && g_errs == 0) {
             int cntN = name == "GEOSGetGeometryN_r" ? GEOSGetNumGeometries_r(H, (const GEOSGeometry*)a[0].p) : GEOSGetNumInteriorRings_r(H, (const GEOSGeometry*)a[0].p);
@@ -326,11 +330,11 @@ static int run_program(const std::string& line, int fd) {
         }
         // health check of a geometry result while the call is still the current one: it must be writable and describable
         if (r.p && (res == 'G' || res == 'g')) {
-            alarm(per_call_s);
+            arm(per_call_s);
             std::string hx = wkb_hex((const GEOSGeometry*)r.p); (void)hx;
             char* ty = GEOSGeomType_r(H, (const GEOSGeometry*)r.p); if (ty) GEOSFree_r(H, ty);
             (void)has_empty_part((const GEOSGeometry*)r.p, 0); (void)coord_flags((const GEOSGeometry*)r.p);
-            alarm(0);
+            arm(0);
         }
         if (ms > maxms) { maxms = ms; slow = name; }
         // ---- error value <=> error handler
@@ -396,7 +400,7 @@ static int run_program(const std::string& line, int fd) {
 
 int main() {
     std::string line;
-    int total_s = getenv("C12_PROGRAM_TIMEOUT") ? atoi(getenv("C12_PROGRAM_TIMEOUT")) : 120;
+    int total_s = getenv("C12_PROGRAM_TIMEOUT") ? atoi(getenv("C12_PROGRAM_TIMEOUT")) : 400;
     while (std::getline(std::cin, line)) {
         int pfd[2], efd[2];
         if (pipe(pfd) || pipe(efd)) { printf("FAIL harness pipe\n"); fflush(stdout); continue; }
